@@ -2,6 +2,14 @@
 """Adds the 'needs' text to seeded/*/meta.json (from the table below) and regenerates seeded/README.md."""
 import json, os, glob
 NEEDS = {
+ 'C03b-removal-keeps-suffix-context': 'a hunk with two change groups whose last group only removes lines (context in between counted as trailing context), applied with --fuzz larger than its real trailing context',
+ 'C07b-distributor-skips-repeated-name': '--threads >= 2 and three file patches in series order: one on X, the next relating X to Y (rename / differing names), another touching Y',
+ 'C09b-deleted-entry-falls-back-to-disk': 'patch i deletes or renames away X, a later patch of the same invocation has --- a/X +++ b/Y: a single push fails at it, split pushes succeed',
+ 'C10b-backups-in-parallel-dry-run': '--dry-run with --threads >= 2 and --backup always: backup files are written',
+ 'C11b-kind-from-first-hunk': 'a file patch with two or more hunks whose first hunk is a context-free pure insertion at line 0 or removal from line 1 (diff -U0): classified create/delete, assertion panic when applied',
+ 'C12b-zero-line-hunk-dropped': 'a modifying file patch containing a hunk with both counts 0 (@@ -2,0 +2,0 @@): dropped by the writer',
+ 'C13b-reject-named-after-final-name': 'the push stops at a patch with a git rename entry whose own content hunk fails: the reject is named after the new name',
+ 'C14b-searcher-window-unclamped': '-A multiapply on a file that repeats one of the hunk\'s old-side lines near its end: index out of bounds, exit 101',
  'C01b-hunkless-deletion-keeps-file': 'git dialect, a hunk-less "deleted file mode" entry on an existing zero-length file, forward: success reported, the empty file stays',
  'C02b-offset-accumulated': 'one file patch with at least three hunks, two earlier hunks applied at different non-zero offsets, and a later hunk whose old side matches at several positions',
  'C04b-rename-undone-into-old-name': 'a rename that is rolled back where the patched name is not the patch\'s old name: a reversed (-R) rename in a failing patch, or a forward rename of an already renamed file',
